@@ -25,6 +25,7 @@ import (
 	"i2psim.local/sim/engine"
 	"i2psim.local/sim/refmodel"
 	"i2psim.local/sim/seams"
+	"i2psim.local/sim/worlds/auth"
 )
 
 type World struct{}
@@ -68,7 +69,9 @@ func (World) Generate(r *engine.RNG, tier string) *engine.Script {
 		case k < 3 || nct == 0 && k < 7:
 			tag := int64(nct)
 			nct++
-			s.Ops = append(s.Ops, engine.Op{Op: "encrypt", Shape: ls2Shape(r.Fork()), N: []int64{tag, int64(r.Intn(3)), int64(r.Intn(4)), int64(r.Uint64() >> 1)}})
+			// N[4] = 1: the LeaseSet2 comes out of the library's signing constructor
+			// (as a publisher's would) instead of being parsed from reference bytes
+			s.Ops = append(s.Ops, engine.Op{Op: "encrypt", Shape: ls2Shape(r.Fork()), N: []int64{tag, int64(r.Intn(3)), int64(r.Intn(4)), int64(r.Uint64() >> 1), int64(r.Intn(2))}})
 			if r.Chance(1, 3) {
 				s.Faults = append(s.Faults, engine.Fault{At: tag, Kind: r.PickStr("entropy_short", "entropy_restart", "entropy_zero", "entropy_ones", "entropy_error"), N: []int64{int64(r.Intn(64))}})
 			}
@@ -322,12 +325,25 @@ func encrypt(o *engine.Outcome, op *engine.Op, f *engine.Fault, store map[int64]
 	}
 	var ls2 lease_set2.LeaseSet2
 	var rem []byte
-	if o.Guard("ReadLeaseSet2", func() { ls2, rem, err = lease_set2.ReadLeaseSet2(append([]byte(nil), rf.Bytes...)) }) {
-		return
+	constructed := false
+	if len(op.N) > 4 && op.N[4] == 1 {
+		var v any
+		var ok bool
+		if !o.Guard("NewLeaseSet2", func() { v, ok = auth.Construct(op.Shape) }) && ok {
+			if p, isLS2 := v.(*lease_set2.LeaseSet2); isLS2 && p != nil {
+				ls2, constructed = *p, true
+				o.Probe("plaintext_from_the_signing_constructor")
+			}
+		}
 	}
-	if err != nil || len(rem) != 0 {
-		o.Probe("reference_ls2_rejected")
-		return
+	if !constructed {
+		if o.Guard("ReadLeaseSet2", func() { ls2, rem, err = lease_set2.ReadLeaseSet2(append([]byte(nil), rf.Bytes...)) }) {
+			return
+		}
+		if err != nil || len(rem) != 0 {
+			o.Probe("reference_ls2_rejected")
+			return
+		}
 	}
 	client := int(op.N[1]) % 3
 	pub, _ := clientKeys(client)
@@ -363,7 +379,7 @@ func encrypt(o *engine.Outcome, op *engine.Op, f *engine.Fault, store map[int64]
 		o.Violate("C16/encrypt-succeeds-although-entropy-source-failed", "EncryptInnerLeaseSet2 returned a ciphertext although the key-generation read failed")
 	}
 	plain, _ := ls2.Bytes()
-	if !bytes.Equal(plain, rf.Bytes) {
+	if !constructed && !bytes.Equal(plain, rf.Bytes) {
 		o.Probe("ls2_bytes_differ_from_reference") // C01 matter
 	}
 	// layout: eph(32) | nonce(12) | ct | tag(16)
